@@ -45,7 +45,11 @@ QUICK = [Config((), True), Config(("events", "c32"), False), Config(("wrapping_v
 
 
 def configs_for(tier):
-    return QUICK if tier == "quick" else all_configs()
+    cs = QUICK if tier == "quick" else all_configs()
+    only = os.environ.get("VERIF_ONLY_CONFIGS")
+    if only:
+        cs = [c for c in cs if c.name in only.split(",")]
+    return cs
 
 
 def sysroot():
